@@ -46,7 +46,7 @@ pids=()
 for k in $(seq 0 $((WORKERS-1))); do
   mkdir -p "$W/corpus$k"
   ( cd "$W" && "$BIN" "corpus$k" seedcorpus -runs="$RUNS" -seed=$((SEED*64+k+1)) -max_len="$MAXLEN" -len_control=0 \
-      -timeout=60 -rss_limit_mb=4096 -malloc_limit_mb=2048 -print_final_stats=1 -artifact_prefix="artifacts/w$k-" \
+      -timeout=$([ "$TARGET" = "compile" ] && echo 60 || echo 300) -rss_limit_mb=4096 -malloc_limit_mb=2048 -print_final_stats=1 -artifact_prefix="artifacts/w$k-" \
       >"log$k.txt" 2>&1 ) &
   pids+=($!)
 done
@@ -61,6 +61,7 @@ for k in $(seq 0 $((WORKERS-1))); do
 done
 echo "FUZZSTATS {\"target\":\"$TARGET\",\"workers\":$WORKERS,\"runs_per_worker\":$RUNS,\"executions\":$execs,\"max_edge_coverage\":$cov,\"new_corpus_entries\":$corp,\"seed_inputs\":$((i+1)),\"max_len\":$MAXLEN,\"seed\":$SEED,\"wall_s\":$((end-start))}"
 rc=0
+skipped=0
 arts=$(ls "$W/artifacts" 2>/dev/null)
 if [ -n "$arts" ]; then
   mkdir -p "$ROOT/replays/new"
@@ -73,7 +74,15 @@ b=open(sys.argv[1],'rb').read()
 json.dump({"property":sys.argv[3],"family":sys.argv[4],"bytes_hex":b.hex(),"note":"libFuzzer artifact "+sys.argv[1].split('/')[-1]},open(sys.argv[2],'w'),indent=1)
 PY
     case "$kind" in
-      oom) echo "INCONCLUSIVE: libFuzzer reported out-of-memory on $out (resource limit, not a verdict)"; [ $rc = 0 ] && rc=2 ;;
+      slow) rm -f "$out"; skipped=$((skipped+1)) ;;   # slow-unit: a report, not a failure
+      oom) rm -f "$out"; skipped=$((skipped+1)); echo "note: libFuzzer worker stopped on its memory limit (resource limit, not a verdict)" ;;
+      timeout)
+        if [ "$TARGET" = "compile" ]; then
+          # termination is part of C03: a compilation that does not finish in 60 s is a violation
+          echo "VIOLATION property=$PID_ replay=$out"; echo "  compile-does-not-terminate (libFuzzer -timeout=60)"; rc=1
+        else
+          rm -f "$out"; skipped=$((skipped+1)); echo "note: a libFuzzer worker stopped on a case slower than its time limit (resource limit, not a verdict)"
+        fi ;;
       *)   k=$(echo "$a" | sed 's/^w\([0-9]*\)-.*/\1/'); grep -a -m3 -E "panicked at|ERROR: AddressSanitizer|ERROR: libFuzzer|C[0-9][0-9] oracle" "$W/log$k.txt" | cut -c1-300
            echo "VIOLATION property=$PID_ replay=$out"; rc=1 ;;
     esac
@@ -81,5 +90,6 @@ PY
 elif [ $fail = 1 ]; then
   echo "INCONCLUSIVE: a libFuzzer worker exited abnormally without an artifact; logs in $W"; tail -3 "$W"/log*.txt | cut -c1-200 | tail -20; exit 2
 fi
+[ $skipped -gt 0 ] && echo "note: $skipped resource-limit artifacts (slow unit, time or memory limit) were set aside"
 [ $rc = 0 ] && rm -rf "$W"
 exit $rc
